@@ -84,6 +84,11 @@ AllEqual(s) == \A i \in 1..Len(s) : s[i] = s[1]
 TFsCmp == Is("fscmp") /\ Step /\ UNCHANGED absvars
           /\ AllEqual(Ev.results) /\ AllEqual(Ev.segbytes)
 
+\* C13: a competing Open while the database is open fails with "locked" and changes nothing
+TOpenLocked == Is("open_locked") /\ Step /\ UNCHANGED absvars
+               /\ mode = "open"
+               /\ ~Ev.ok /\ Ev.ek = "locked" /\ Ev.before = Ev.after
+
 \* free-form information for the reader of a recording
 TNote == Is("note") /\ Step /\ UNCHANGED absvars
 
@@ -94,7 +99,7 @@ TNote == Is("note") /\ Step /\ UNCHANGED absvars
 TNext ==
   \/ TReset \/ TInv \/ TRet \/ TLin \/ TScanStart
   \/ TImage \/ TReopened \/ TRestore \/ TContinue \/ TReadAll \/ TBackupOpened
-  \/ THold \/ TObserve \/ TListing \/ TRound \/ TFsCmp \/ TNote
+  \/ TOpenLocked \/ THold \/ TObserve \/ TListing \/ TRound \/ TFsCmp \/ TNote
 
 TSpec == TInit /\ [][TNext]_tvars
 
